@@ -161,21 +161,41 @@ type mEntry struct {
 	expiresAt time.Time
 }
 
+// parallel runs body(ci) for ci in [0,n) on w goroutines over disjoint case
+// ranges; every case draws from its own seed-derived PRNG stream, so the case
+// list does not depend on the scheduling of the workers.
+func parallel(n, w int, body func(ci int) bool) {
+	var wg sync.WaitGroup
+	var abort atomic.Bool
+	for k := 0; k < w; k++ {
+		wg.Add(1)
+		go func(k int) {
+			defer wg.Done()
+			for ci := k; ci < n && !abort.Load(); ci += w {
+				if !body(ci) {
+					abort.Store(true)
+				}
+			}
+		}(k)
+	}
+	wg.Wait()
+}
+
 func phaseSequential(t *testing.T, run *ev.Run) {
-	r := run.Rand("sequential")
-	n := run.N(1500, 120000)
-	for ci := 0; ci < n; ci++ {
-		spec := genSeq(r)
-		idr := rand.New(rand.NewSource(r.Int63()))
+	n := run.N(2400, 60000)
+	parallel(n, 8, func(ci int) bool {
 		caseID := fmt.Sprintf("seq-%d", ci)
 		if rc := run.ReplayCase(); rc != "" && rc != caseID {
-			continue
+			return true
 		}
-		runSequential(run, caseID, spec, idr)
+		r := run.Rand(caseID)
+		spec := genSeq(r)
+		runSequential(run, caseID, spec, r)
 		if run.WantSample() && ci%211 == 0 {
 			run.Sample(map[string]interface{}{"phase": "sequential", "ttl_ns": spec.TTLNs, "hashes": spec.Hashes, "peers": spec.Peers, "first_ops": spec.Ops[:8]})
 		}
-	}
+		return true
+	})
 }
 
 func runSequential(run *ev.Run, caseID string, spec seqSpec, idr *rand.Rand) {
@@ -199,6 +219,13 @@ func runSequential(run *ev.Run, caseID string, spec seqSpec, idr *rand.Rand) {
 		model[i] = map[int]*mEntry{}
 	}
 
+	counts := map[string]int64{}
+	cnt := func(k string, n int64) { counts[k] += n }
+	defer func() {
+		for k, v := range counts {
+			run.Count(k, v)
+		}
+	}()
 	mixedCleanup, forgotten := false, false
 	lastMut := "start"
 	witness := func(step int, extra map[string]interface{}) map[string]interface{} {
@@ -239,7 +266,7 @@ func runSequential(run *ev.Run, caseID string, spec seqSpec, idr *rand.Rand) {
 				run.Violation("origin-flag-set", caseID, witness(step, map[string]interface{}{"h": h, "returned": render(got)}))
 			}
 		}
-		run.Count("seq_entries_judged", int64(len(got)))
+		cnt("seq_entries_judged", int64(len(got)))
 		if n >= len(model[h]) {
 			for i, e := range model[h] {
 				fresh := now.Before(e.expiresAt)
@@ -249,11 +276,11 @@ func runSequential(run *ev.Run, caseID string, spec seqSpec, idr *rand.Rand) {
 						"h": h, "peer": i, "expires_in_ns": e.expiresAt.Sub(now).Nanoseconds(), "where": where, "returned": render(got)}))
 				case !fresh && !seen[i]:
 					forgotten = true
-					run.Count("seq_expired_entry_observed_gone", 1)
+					cnt("seq_expired_entry_observed_gone", 1)
 				case !fresh && seen[i]:
-					run.Count("seq_expired_entry_still_listed", 1)
+					cnt("seq_expired_entry_still_listed", 1)
 				default:
-					run.Count("seq_fresh_entry_present", 1)
+					cnt("seq_fresh_entry_present", 1)
 				}
 			}
 		}
@@ -270,7 +297,7 @@ func runSequential(run *ev.Run, caseID string, spec seqSpec, idr *rand.Rand) {
 		case "get":
 			got, err := store.GetPeers(hashes[op.H], op.N)
 			judge(step, op.H, op.N, got, err, "get-op")
-			run.Count("seq_gets", 1)
+			cnt("seq_gets", 1)
 		case "advance":
 			now := clk.advance(time.Duration(op.AdvNs))
 			// never sit exactly on an expiry instant (After vs >= is not part of the statement)
@@ -306,7 +333,7 @@ func runSequential(run *ev.Run, caseID string, spec seqSpec, idr *rand.Rand) {
 			} else {
 				store.VerifC27CleanupExpiredPeerGroups()
 			}
-			run.Count("seq_"+op.Kind, 1)
+			cnt("seq_"+op.Kind, 1)
 			lastMut = op.Kind
 		}
 		// observable state after every step
@@ -384,22 +411,22 @@ func genForced(r *rand.Rand) forcedSpec {
 }
 
 func phaseForced(t *testing.T, run *ev.Run) {
-	r := run.Rand("forced")
-	n := run.N(1200, 60000)
-	for ci := 0; ci < n; ci++ {
-		spec := genForced(r)
-		idr := rand.New(rand.NewSource(r.Int63()))
+	n := run.N(2400, 30000)
+	parallel(n, 6, func(ci int) bool {
 		caseID := fmt.Sprintf("forced-%d", ci)
 		if rc := run.ReplayCase(); rc != "" && rc != caseID {
-			continue
+			return true
 		}
-		if !runForced(run, caseID, spec, idr) {
-			return
+		r := run.Rand(caseID)
+		spec := genForced(r)
+		if !runForced(run, caseID, spec, r) {
+			return false
 		}
 		if run.WantSample() && ci%301 == 0 {
 			run.Sample(map[string]interface{}{"phase": "forced", "spec": spec})
 		}
-	}
+		return true
+	})
 }
 
 // ann is one announce issued for a (group, peer) pair.
@@ -438,7 +465,8 @@ func runForced(run *ev.Run, caseID string, spec forcedSpec, idr *rand.Rand) bool
 	for i := range state {
 		state[i] = map[int][]*ann{}
 	}
-	var stamp atomic.Int64
+	var stamp, freshPresent atomic.Int64
+	defer func() { run.Count("forced_fresh_entry_present", freshPresent.Load()) }()
 
 	announce := func(gi, p, port int, complete bool) {
 		at := clk.peek()
@@ -604,7 +632,7 @@ func runForced(run *ev.Run, caseID string, spec forcedSpec, idr *rand.Rand) bool
 					run.Violation("fresh-peer-missing/concurrent-"+spec.Hooked, caseID, map[string]interface{}{
 						"spec": spec, "g": gi, "peer": p, "where": where, "announced_ns_before_read": now.Sub(a.at).Nanoseconds(), "returned": render(got)})
 				} else {
-					run.Count("forced_fresh_entry_present", 1)
+					freshPresent.Add(1)
 				}
 			}
 		}
@@ -705,15 +733,47 @@ type sPeer struct {
 	doneAt     time.Time // clock read before the last completed announce was issued
 }
 
+// gate is a generation counter the clock goroutine bumps after every step;
+// workers do a bounded amount of work per generation and then block on it, so
+// the work of a config is a function of its step count, not of the wall clock.
+type gate struct {
+	mu  sync.Mutex
+	gen int
+	ch  chan struct{}
+}
+
+func newGate() *gate { return &gate{ch: make(chan struct{})} }
+
+func (g *gate) bump() {
+	g.mu.Lock()
+	g.gen++
+	close(g.ch)
+	g.ch = make(chan struct{})
+	g.mu.Unlock()
+}
+
+// wait blocks until the generation differs from seen and returns it.
+func (g *gate) wait(seen int) int {
+	for {
+		g.mu.Lock()
+		gen, ch := g.gen, g.ch
+		g.mu.Unlock()
+		if gen != seen {
+			return gen
+		}
+		<-ch
+	}
+}
+
 func phaseStress(t *testing.T, run *ev.Run) {
 	r := run.Rand("stress")
-	n := run.N(4, 40)
+	n := run.N(4, 16)
 	for ci := 0; ci < n; ci++ {
 		spec := stressSpec{
 			TTLNs:     int64(ttlChoices[r.Intn(len(ttlChoices))]),
 			Hashes:    1 + r.Intn(3),
 			StepDiv:   []int{3, 4, 7}[r.Intn(3)],
-			Steps:     run.N(250, 1500),
+			Steps:     run.N(300, 1000),
 			ReadsPer:  4 + r.Intn(8),
 			PassesPer: 1 + r.Intn(3),
 		}
@@ -775,6 +835,7 @@ func runStress(run *ev.Run, caseID string, spec stressSpec, idr *rand.Rand) bool
 	}
 
 	var stop atomic.Bool
+	gt := newGate()
 	var nReads, nEntries, nGroups, nRenewals, nAnnounces atomic.Int64
 
 	announce := func(p *sPeer) {
@@ -798,11 +859,13 @@ func runStress(run *ev.Run, caseID string, spec stressSpec, idr *rand.Rand) bool
 		wg.Add(1)
 		go func(own []*sPeer) {
 			defer wg.Done()
-			for !stop.Load() {
-				for _, p := range own {
-					announce(p)
+			for gen := 0; !stop.Load(); gen = gt.wait(gen) {
+				for k := 0; k < 2; k++ {
+					for _, p := range own {
+						announce(p)
+					}
+					runtime.Gosched()
 				}
-				runtime.Gosched()
 			}
 		}(own)
 	}
@@ -813,36 +876,42 @@ func runStress(run *ev.Run, caseID string, spec stressSpec, idr *rand.Rand) bool
 			for _, p := range own {
 				announce(p)
 			}
-			for !stop.Load() {
-				now := clk.peek()
-				for _, p := range own {
-					p.mu.Lock()
-					expired := now.After(p.doneAt.Add(ttl))
-					p.mu.Unlock()
-					if expired {
-						announce(p) // renew the moment it is seen expired: races with the cleanup passes
-						nRenewals.Add(1)
+			for gen := 0; !stop.Load(); gen = gt.wait(gen) {
+				for k := 0; k < 3; k++ {
+					now := clk.peek()
+					for _, p := range own {
+						p.mu.Lock()
+						expired := now.After(p.doneAt.Add(ttl))
+						p.mu.Unlock()
+						if expired {
+							announce(p) // renew the moment it is seen expired: races with the cleanup passes
+							nRenewals.Add(1)
+						}
 					}
+					runtime.Gosched()
 				}
-				runtime.Gosched()
 			}
 		}(own)
 	}
 	wg.Add(2)
 	go func() {
 		defer wg.Done()
-		for !stop.Load() {
-			store.VerifC27CleanupExpiredPeerEntries()
-			nEntries.Add(1)
-			runtime.Gosched()
+		for gen := 0; !stop.Load(); gen = gt.wait(gen) {
+			for k := 0; k < 2*spec.PassesPer; k++ {
+				store.VerifC27CleanupExpiredPeerEntries()
+				nEntries.Add(1)
+				runtime.Gosched()
+			}
 		}
 	}()
 	go func() {
 		defer wg.Done()
-		for !stop.Load() {
-			store.VerifC27CleanupExpiredPeerGroups()
-			nGroups.Add(1)
-			runtime.Gosched()
+		for gen := 0; !stop.Load(); gen = gt.wait(gen) {
+			for k := 0; k < 2*spec.PassesPer; k++ {
+				store.VerifC27CleanupExpiredPeerGroups()
+				nGroups.Add(1)
+				runtime.Gosched()
+			}
 		}
 	}()
 
@@ -852,10 +921,16 @@ func runStress(run *ev.Run, caseID string, spec stressSpec, idr *rand.Rand) bool
 	}
 	for rd := 0; rd < 2; rd++ {
 		wg.Add(1)
+		rseed := idr.Int63()
 		go func(rd int) {
 			defer wg.Done()
-			rr := rand.New(rand.NewSource(int64(rd) + 1)) // only picks which torrent / n to read next
-			for !stop.Load() {
+			rr := rand.New(rand.NewSource(rseed)) // picks which torrent / n to read next
+			gen := 0
+			for k := 0; !stop.Load(); k++ {
+				if k == spec.ReadsPer {
+					gen, k = gt.wait(gen), 0
+					continue
+				}
 				h := rr.Intn(spec.Hashes)
 				n := big
 				if spec.SmallReads && rr.Intn(3) == 0 {
@@ -925,9 +1000,9 @@ func runStress(run *ev.Run, caseID string, spec stressSpec, idr *rand.Rand) bool
 	// current instant and the readers / passes made their minimum progress
 	ok := true
 	deadline := time.Now().Add(240 * time.Second) // watchdog only
+	var r0, e0, g0 int64                          // progress counters at the start of the current generation
 advance:
 	for s := 0; s < spec.Steps; s++ {
-		r0, e0, g0 := nReads.Load(), nEntries.Load(), nGroups.Load()
 		now := clk.peek()
 		for {
 			ready := nReads.Load()-r0 >= int64(spec.ReadsPer) && nEntries.Load()-e0 >= int64(spec.PassesPer) && nGroups.Load()-g0 >= int64(spec.PassesPer)
@@ -952,11 +1027,14 @@ advance:
 				ok = false
 				break advance
 			}
-			runtime.Gosched()
+			time.Sleep(20 * time.Microsecond) // pacing only
 		}
 		clk.advance(step + time.Duration(s%3)) // never a multiple of the TTL on the nanosecond
+		r0, e0, g0 = nReads.Load(), nEntries.Load(), nGroups.Load()
+		gt.bump()
 	}
 	stop.Store(true)
+	gt.bump()
 	wg.Wait()
 	if !ok {
 		run.Inconclusive("C27 stress phase: no progress within the 240 s watchdog (" + caseID + ")")
